@@ -11,7 +11,25 @@ from eth_hash.auto import keccak  # noqa: E402
 
 ID = "C12"
 LEAN_IMPORTS = ["PyTrie.Props.C12"]
-THEOREMS = []
+THEOREMS = [
+    "PyTrie.Props.C12.canon_run",
+    "PyTrie.Props.C12.get_step",
+    "PyTrie.Props.C12.run_get",
+    "PyTrie.Props.C12.tree_unique",
+    "PyTrie.Props.C12.root_depends_only_on_contents",
+    "PyTrie.Props.C12.root_empty",
+    "PyTrie.Props.C12.raise_changes_nothing",
+    "PyTrie.Props.C12.saves_tree",
+    "PyTrie.Props.C12.new_nodes_saved",
+    "PyTrie.Bin.bget_set",
+    "PyTrie.Bin.set_override_iff",
+    "PyTrie.Bin.bget_delete",
+    "PyTrie.Bin.delete_override",
+    "PyTrie.Bin.bget_delete_subtrie",
+    "PyTrie.Bin.delete_subtrie_override",
+    "PyTrie.Bin.bcanon_unique",
+    "PyTrie.Bin.keys_prefix_free",
+]
 RULE = ("histories of set / delete / delete_subtrie (method and dict syntax) over fixed-length and variable-length key pools "
         "with prefix-related keys, keys differing at every bit position of a byte, repeated values; after every call the outcome "
         "(ok / NodeOverrideError), the root, the exact database and get/exists of every pool key and of prefixes/extensions are "
@@ -83,7 +101,7 @@ def gen_cases(rng, tier):
     for n in range(1, maxlen + 1):
         for ops in itertools.product(alphabet, repeat=n):
             yield {"ops": list(ops)}
-    n = 1500 if tier == "quick" else 30000
+    n = 900 if tier == "quick" else 30000
     for i in range(n):
         r = rng.random()
         if r < 0.6:
